@@ -462,7 +462,28 @@ def install_threads(e):
                    modifies=lambda c, a: [(a["self"], "last_ping_tm"), (a["self"], "last_pong_tm"), "ghost:live_ping_threads"],
                    props=("C14", "C15", "C16"), doc="sets the stop event, joins the thread (3 s bound), resets both liveness stamps to 0"))
 
+    def stpt_case(c):
+        # the object may carry the stop event of an earlier connection, already set by _stop_ping_thread
+        app = mk_app(c, sock="none")
+        ghost_threads(c)
+        c.setf(app, "stop_ping", OptV(smt.fresh(smt.Bool, "stop_ping.isnone"), c.new_ext("Event", is_set=c.fresh("bool", "old_event_set"))))
+        return dict(self=app)
+
+    def event_unset(c, app):
+        ev = unopt(c.getf(app, "stop_ping"))
+        if not isinstance(ev, Ext):
+            return z3.BoolVal(False)
+        st = ev.attrs.get("is_set", False)
+        return z3.BoolVal(not st) if isinstance(st, bool) else z3.Not(z(st, "bool"))
+
     def stpt_post(c, old, a, res):
+        app = a["self"]
+        if c.mode != "assume":
+            # the new thread's stop event is not set when the thread starts (else it would end at once: no pings)
+            return z3.And(stpt_post_base(c, old, a, res), event_unset(c, app))
+        return stpt_post_base(c, old, a, res)
+
+    def stpt_post_base(c, old, a, res):
         app = a["self"]
         return z3.And(z(c.getf(app, "last_ping_tm"), "real") == 0, z(c.getf(app, "last_pong_tm"), "real") == 0,
                       z(c.ghost["live_ping_threads"], "int") == z(old.ghost["live_ping_threads"], "int") + 1,
@@ -475,7 +496,7 @@ def install_threads(e):
         c.setf(app, "stop_ping", c.new_ext("Event"))
         c.setf(app, "ping_thread", c.new_ext("Thread"))
         c.ghost["live_ping_threads"] = SV("int", z(old.ghost["live_ping_threads"], "int") + 1)
-    e.add(Contract(P + "WebSocketApp._start_ping_thread", cases=[("any", spt_case)], ensures=stpt_post, havoc=stpt_havoc,
+    e.add(Contract(P + "WebSocketApp._start_ping_thread", cases=[("any", stpt_case)], ensures=stpt_post, havoc=stpt_havoc,
                    modifies=lambda c, a: [(a["self"], f) for f in ("last_ping_tm", "last_pong_tm", "stop_ping", "ping_thread")] + ["ghost:live_ping_threads"],
                    props=("C15", "C16"), doc="resets the liveness stamps, creates a fresh stop event and starts exactly one daemon thread"))
 
@@ -699,7 +720,13 @@ def install_loop(e):
                    modifies=lambda c, a: [a["self"]], props=("C09",),
                    doc="normal: connected with a transport, parser positioned at the first byte after the handshake response; "
                        "failure: raises with sock = None and connected = False (verified under C09)"))
-    e.add(Contract(K + "WebSocket.settimeout", cases=[], havoc=lambda c, a, old, k: None, assumed=True))
+    def settimeout_havoc(c, a, old, k):
+        # settimeout(t): remembered in sock_opt.timeout (used for the connection set-up and the handshake) and applied to an open socket
+        ws = a["self"]
+        t = a.get("timeout", (a.get("$args") or [None])[0])
+        if isinstance(ws, Ref) and c.hasf(ws, "sock_opt") and isinstance(c.getf(ws, "sock_opt"), Ref):
+            c.setf(c.getf(ws, "sock_opt"), "timeout", t)
+    e.add(Contract(K + "WebSocket.settimeout", cases=[], havoc=settimeout_havoc, assumed=True))
     e.add(Contract("websocket._socket:getdefaulttimeout", cases=[], result=lambda c, a: c.fresh(("opt", "real"), "deftimeout"), assumed=True))
 
     # ---- handleDisconnect(e, reconnecting) ------------------------------------------------------------
